@@ -117,6 +117,8 @@ def validate(jobs, status, workdir, design=None, workers=NCPU, timeout=300):
         except OSError:
             return (j, None)
         r = tlc.pipe_trace(workdir, j["id"], j["out"], design=design, timeout=timeout)
+        if tlc.inconclusive(r):        # the tool did not decide (load): once more with a longer limit
+            r = tlc.pipe_trace(workdir, j["id"] + "t", j["out"], design=design, timeout=3 * timeout)
         if not r["ok"] and not r["timeout"]:
             r2 = tlc.pipe_trace(workdir, j["id"] + "r", j["out"], design=design, timeout=timeout)   # a rejection must repeat
             if r2["ok"]:
